@@ -19,7 +19,7 @@ SAN = {
 }
 BASE_FLAGS = ['-std=c++11', '-w', '-DHAVE_CONFIG_H', '-DFIX8_VERIF']
 ENV_RUN = dict(os.environ, ASAN_OPTIONS='detect_leaks=0:abort_on_error=0:halt_on_error=1:allocator_may_return_null=1',
-               UBSAN_OPTIONS='print_stacktrace=1:halt_on_error=1', TZ='UTC', LC_ALL='C',
+               UBSAN_OPTIONS='print_stacktrace=0:halt_on_error=1', TZ='UTC', LC_ALL='C',
                TSAN_OPTIONS='halt_on_error=0:report_signal_unsafe=0')
 
 for d in (CACHE, EVID, REPLAYS):
